@@ -1106,6 +1106,17 @@ def gen(ctx):
         c = ell_corr_case(rng)
         if c is not None:
             yield c
+    # large common offset (translation invariance): structured cases of the rectangle variants (and, for contrast,
+    # the ellipsoidal ones) translated by 2^12 … 2^20
+    for k in range(ctx.n(12, 240)):
+        alg = (RECT_ALGS + RECT_ALGS + ("PaVeBaGP-DE", "PaVeBaPartialGP-ell"))[k % 6]
+        if k % 3 == 2 and alg in RECT_ALGS:
+            base = corner_case(rng, alg)
+        else:
+            base = gen_case(rng, ctx.tier, alg, rng.choice(["eps-boundary", "ties", "front", "chain", "near-incomparable"]))
+            base["batch"] = 1
+        if base is not None:
+            yield with_offset(rng, base)
     # Auer with empirical β and noise variance > 1: truths at the worst corners of the displayed boxes
     for k in range(ctx.n(8, 160)):
         yield auer_two_phase_case(rng)
@@ -1135,6 +1146,52 @@ def gen(ctx):
         else:
             yield gen_case(rng, ctx.tier)
         k += 1
+
+
+# --------------------------------------------------------------------------------------------
+# large common offset: the property is invariant under translations of the objective space
+# --------------------------------------------------------------------------------------------
+OFFSET_EXPONENTS = [12, 13, 14, 16, 17, 18, 20]
+
+
+def with_offset(rng, case):
+    """the same case with every true mean (hence every scripted posterior, which is `truth + …`) translated by
+    a common dyadic offset of magnitude 2^12 … 2^20 per objective; gaps, widths and ε stay O(1e-3 … 1)"""
+    m = len(case["Y"][0])
+    k = rng.choice(OFFSET_EXPONENTS)
+    off = [float(2 ** k) * rng.choice([1.0, 1.0, -1.0, 1.5, 0.75]) for _ in range(m)]
+    c = dict(case)
+    c["offset"] = off
+    c["Y"] = [[float(y + o) for y, o in zip(row, off)] for row in case["Y"]]
+    c["shape"] = case.get("shape", "?") + "+offset"
+    return c
+
+
+def untranslated(case):
+    c = {k: v for k, v in case.items() if k != "offset"}
+    c["Y"] = [[float(y - o) for y, o in zip(row, case["offset"])] for row in case["Y"]]
+    return c
+
+
+def translation_twin_check(ctx, case, cap, traj, res):
+    """(F), metamorphic: for a scripted history the run translated by `case["offset"]` must go through the same
+    (S, P, U) trajectory as the untranslated run."""
+    if "offset" not in case or case["adv"]["mode"] == "noise" or res["status"] != "terminated":
+        return
+    twin_traj = []
+    twin = run_history(ctx, untranslated(case), cap,
+                       on_round=lambda alg, adv, before, active, t: twin_traj.append(
+                           (sorted(alg.S), sorted(alg.P), sorted(getattr(alg, "U", [])))))
+    if twin["status"] != "terminated":
+        ctx.count("translation_twin_" + twin["status"].split(":")[0])
+        return
+    ctx.count("translation_twins_compared")
+    if twin_traj != traj:
+        k = next((i for i, (a, b) in enumerate(zip(traj, twin_traj)) if a != b), min(len(traj), len(twin_traj)))
+        ctx.violation(f"translation-variant:{case['alg']}", f"{case['alg']}: the same scripted history translated by a "
+                      f"common offset {case['offset']} goes through a different (S, P, U) trajectory (first difference "
+                      f"after round {k + 1}); the property and the decision rules are translation invariant", case,
+                      kind="F", detail={"translated": traj[: k + 2], "untranslated": twin_traj[: k + 2]})
 
 
 # --------------------------------------------------------------------------------------------
@@ -1238,7 +1295,10 @@ def run_case(ctx, case):
 
     core_rec = c01_core.recorder(case)    # INTEGRATION: the whole run through Model/Core.lean (c01_core.py)
 
+    traj = []
+
     def on_round(alg, adv, before, active, t):
+        traj.append((sorted(alg.S), sorted(alg.P), sorted(getattr(alg, "U", []))))
         decided_round(ctx, case, alg, adv, before, t, fstate)
         if core_rec is not None:
             core_rec.on_round(alg, adv, before, active, t)
@@ -1246,6 +1306,7 @@ def run_case(ctx, case):
     res = run_history(ctx, case, cap, on_round=on_round)
     if core_rec is not None and not res["status"].startswith("crash"):
         core_rec.finish(ctx, case, res)
+    translation_twin_check(ctx, case, cap, traj, res)
     st = res["status"]
     ctx.count("status_" + st.split(":")[0] + (":" + st.split(":", 1)[1] if st.startswith("skipped") else ""))
     ctx.count("rounds_total", res.get("rounds", 0))
